@@ -117,10 +117,15 @@ class SMap(Symbolic):
         if name == "update":
             def update(it_, other):
                 if isinstance(other, SMap):
-                    k = z3.Const(it_.cx.fresh_name("k"), self.kc.sort)
-                    self.val = z3.Lambda([k], z3.If(other.has(k), other.at(k), self.at(k)))
-                    self.dom = z3.Lambda([k], z3.Or(other.has(k), self.has(k)))
-                    it_.cx.log_write(("smap", id(self), None))
+                    cx = it_.cx
+                    k = z3.Const(cx.fresh_name("k"), self.kc.sort)
+                    nval = z3.Const(cx.fresh_name(self.name + ".val"), self.val.sort())
+                    ndom = z3.Const(cx.fresh_name(self.name + ".dom"), self.dom.sort())
+                    # definitional extension (kept lambda-free for the solvers)
+                    cx.assume(z3.ForAll([k], z3.Select(nval, k) == z3.If(other.has(k), other.at(k), self.at(k))))
+                    cx.assume(z3.ForAll([k], z3.Select(ndom, k) == z3.Or(other.has(k), self.has(k))))
+                    self.val, self.dom = nval, ndom
+                    cx.log_write(("smap", id(self), None))
                     return None
                 if isinstance(other, dict):
                     for kk, vv in other.items():
@@ -188,6 +193,7 @@ class SSeq(Symbolic):
         self.length = length if length is not None else z3.Int(cx.fresh_name(name + ".len"))
         self.arr = arr if arr is not None else z3.Const(cx.fresh_name(name + ".arr"), z3.ArraySort(z3.IntSort(), ec.sort))
         self.pytype = pytype
+        self.mem = None      # optional exact membership characterisation: z3 element -> Bool
 
     def at(self, i):
         return z3.Select(self.arr, i)
@@ -230,6 +236,8 @@ class SSeq(Symbolic):
     def _contains(self, it, x, node=None):
         j = z3.Int(it.cx.fresh_name("j"))
         xx = self.ec.unwrap(x)
+        if self.mem is not None:
+            return SV(self.mem(xx), "bool")
         return SV(z3.Exists([j], z3.And(0 <= j, j < self.length, self.at(j) == xx)), "bool")
 
     def _binop(self, it, name, other, rev, node, inplace):
@@ -246,26 +254,36 @@ class SSeq(Symbolic):
 
 
 def seq_concat(it, a, b, node=None):
-    def parts(x, ec):
-        if isinstance(x, SSeq):
-            return x.length, x.arr
-        if isinstance(x, (tuple, list)):
-            arr = z3.K(z3.IntSort(), ec.unwrap(x[0])) if x else None
-            n = len(x)
-            if not x:
-                return z3.IntVal(0), None
-            for i, v in enumerate(x):
-                arr = z3.Store(arr, i, ec.unwrap(v))
-            return z3.IntVal(n), arr
-        raise OutOfSubset("sequence concatenation operand", node)
+    cx = it.cx
     ec = a.ec if isinstance(a, SSeq) else b.ec
-    la, aa = parts(a, ec)
-    lb, ab = parts(b, ec)
-    if aa is None:
+
+    def parts(x):
+        """length, element-at function, membership function (or None)"""
+        if isinstance(x, SSeq):
+            return x.length, (lambda j: x.at(j)), x.mem
+        if isinstance(x, (tuple, list)):
+            elems = [ec.unwrap(v) for v in x]
+            n = len(elems)
+
+            def at(j):
+                e = elems[-1]
+                for k in range(n - 2, -1, -1):
+                    e = z3.If(j == k, elems[k], e)
+                return e
+            return z3.IntVal(n), (at if n else None), (lambda m: z3.Or(*[m == e for e in elems]) if elems else z3.BoolVal(False))
+        raise OutOfSubset("sequence concatenation operand", node)
+    la, ata, mema = parts(a)
+    lb, atb, memb = parts(b)
+    if ata is None:
         return b if isinstance(b, SSeq) else a
-    if ab is None:
+    if atb is None:
         return a
-    j = z3.Int(it.cx.fresh_name("j"))
-    arr = z3.Lambda([j], z3.If(j < la, z3.Select(aa, j), z3.Select(ab, j - la)))
     pt = a.pytype if isinstance(a, SSeq) else b.pytype
-    return SSeq(it.cx, ec, "cat", length=la + lb, arr=arr, pytype=pt)
+    out = SSeq(cx, ec, "cat", length=z3.simplify(la + lb), pytype=pt)
+    j = z3.Int(cx.fresh_name("j"))
+    # definitional extension, lambda-free
+    cx.assume(z3.ForAll([j], z3.Implies(z3.And(0 <= j, j < la + lb),
+                                        out.at(j) == z3.If(j < la, ata(j), atb(j - la)))))
+    if mema is not None and memb is not None:
+        out.mem = lambda m: z3.Or(mema(m), memb(m))
+    return out
